@@ -80,11 +80,11 @@ type c08Local struct {
 	GlobalAS uint32
 	LocalAS  uint32 // neighbour-level local-as (0 = use the global AS)
 	RouterID string
-	PeerAS   uint32 // 0 = AS checking disabled
-	Hold     uint16 // configured hold time
-	HoldSet  bool   // false: not configured (default 90)
-	KA       uint16 // configured keepalive interval
-	KASet    bool   // false: not configured (default hold/3)
+	PeerAS   uint32       // 0 = AS checking disabled
+	Hold     uint16       // configured hold time
+	HoldSet  bool         // false: not configured (default 90)
+	KA       uint16       // configured keepalive interval
+	KASet    bool         // false: not configured (default hold/3)
 	Fams     []c08FamConf // nil: not configured (IPv4 unicast for an IPv4 neighbour)
 	GR       bool
 	GRTime   uint16 // 0 = default (hold time)
